@@ -64,7 +64,9 @@ def pool(tier, seed):
             p0 = dt.date(s0.year, m, d_)
             if p0 < s0:
                 p0 = dt.date(s0.year + 1, m, d_)
-            ns = int(rng.integers(1, 3))
+            # (every second of these members spans six to eight seasons: the conversion averages
+            # over the seasons of the window, in whatever order it holds them)
+            ns = int(rng.integers(1, 3)) if (i // 10) % 2 else int(rng.integers(6, 9))
             endd = gen.add_years(p0, ns - 1) + dt.timedelta(days=gen.crop_len_days(sp["crop"]["name"]) + 40)
             if sp["weather"]["kind"] == "file":
                 sp["weather"] = {"kind": "synth", "seed": int(rng.integers(0, 2 ** 31 - 1)), "regime": "warm"}
@@ -149,6 +151,12 @@ def sibling(sp, rng, kind):
                          "layers": [{"thickness": 0.1, "thWP": wp, "thFC": fc, "thS": ts, "Ksat": float(ks), "pen": 100.0},
                                     {"thickness": 2.0, "thWP": other[0], "thFC": other[1], "thS": other[2], "Ksat": other[3], "pen": 100.0}]}
             a["iwc"] = {"wc_type": "Prop", "method": "Layer", "depth_layer": [1, 2], "value": ["FC", "FC"]}
+    elif kind == "grid":
+        # the same soil on another compartment grid (same number of compartments in the top soil)
+        if a["soil"]["type"] not in ("custom", "ac_TunisLocal", "Paddy"):
+            a["soil"] = {"type": a["soil"]["type"], "kw": dict(a["soil"].get("kw", {}),
+                         dz=gen.pick(rng, [[0.05, 0.1, 0.15, 0.2, 0.2, 0.25, 0.25], [0.1, 0.1, 0.1] + [0.3] * 4,
+                                           [0.15] * 8, [0.05] * 4 + [0.2] * 6]))}
     elif kind == "co2":
         a["co2"] = {"constant": float(gen.pick(rng, [300.0, 600.0, 900.0]))}
     elif kind == "iwc":
@@ -163,7 +171,7 @@ def sibling(sp, rng, kind):
 
 
 SENS_PARAMS = ["CCx", "WP", "Zmax", "Kcb", "HI0", "PlantPop", "SeedSize", "CGC", "CDC", "Tbase", "fshape_r", "a_HI", "WPy", "Emergence", "EmergenceCD"]
-SIBLING_KINDS = ["weather", "soil", "irr", "crop_kw", "co2", "iwc", "gw", "fm", "planting", "subsoil", "crop_param", "crop_param"]
+SIBLING_KINDS = ["weather", "soil", "irr", "crop_kw", "co2", "iwc", "gw", "fm", "planting", "subsoil", "crop_param", "grid", "crop_param"]
 
 
 def cases(tier, seed):
